@@ -142,8 +142,11 @@ Return == pc = "rewarded"
 -----------------------------------------------------------------------------
 (* The ideal solver: every value is the exact one *)
 IdealRewards ==
-    LET rw == [s \in 1..desc.n |-> IF s \in ro.Dom THEN ObsOf(ro.rv[s]) ELSE ObsOf(RZero)]
-        val == [s \in 1..desc.n |-> IF s \in ro.Dom THEN ro.rv[s] ELSE RZero]
+    \* (outside the domain the exact clauses are claimed for, ro carries no values: the ideal
+    \* solver still reports the value of the conditioned game whenever that game is stopping)
+    LET rv  == IF ro.ok THEN ro.rv ELSE IF ro.stop THEN RewardValue(ro.Gc, ro.Dom) ELSE [s \in ro.Dom |-> RZero]
+        rw  == [s \in 1..desc.n |-> IF s \in ro.Dom THEN ObsOf(rv[s]) ELSE ObsOf(RZero)]
+        val == [s \in 1..desc.n |-> IF s \in ro.Dom THEN rv[s] ELSE RZero]
     IN  Rewards(rw, IdealStrat(desc, nodes, val))
 
 IdealNext ==
